@@ -20,7 +20,8 @@ pub static PROP: PropDef = PropDef {
     fixed,
     check,
     rule: "enumeration (fixed tapes): every view kind {TypedImage, TypedImageRef, TypedCroppedImage over a reference / over an owned image, nested TypedCroppedImage, TypedCroppedImageMut read \
-           through its shared interface; mutable: TypedImage, TypedCroppedImageMut, nested TypedCroppedImageMut} x every view size 0..8 x 0..8 (0..20 thorough) x {split by height, by width} x every \
+           through its shared interface, a user-defined view that only implements the required methods (so the traits' default split implementations run); \
+           mutable: TypedImage, TypedCroppedImageMut, nested TypedCroppedImageMut, user-defined mutable view} x every view size 0..8 x 0..8 (0..20 thorough) x {split by height, by width} x every \
            (start, size, parts) with start in 0..extent+1, size in 1..extent+1, parts in 1..size+1 (so invalid triples are included), each valid split followed by a second split of every part \
            (split-of-split through the parts' own types). Generated tapes: views up to 40x24 with random triples and depth-3 compositions. Oracle: None <=> parts > size or size > extent or \
            start > extent - size; else exactly `parts` views in order, extents floor or ceil of size/parts summing to size, orthogonal extent unchanged, identity tags read through part k are the \
@@ -30,8 +31,72 @@ pub static PROP: PropDef = PropDef {
     exhaustive: |_| true,
 };
 
-const SHARED_KINDS: u8 = 6;
-const MUT_KINDS: u8 = 3;
+const SHARED_KINDS: u8 = 7;
+const MUT_KINDS: u8 = 4;
+
+/// A user-defined view that implements only the required methods, so that the trait's default
+/// `split_by_*` implementations are what gets tested.
+struct UserView<'a> {
+    w: u32,
+    h: u32,
+    px: &'a [I32],
+}
+unsafe impl<'a> ImageView for UserView<'a> {
+    type Pixel = I32;
+    fn width(&self) -> u32 {
+        self.w
+    }
+    fn height(&self) -> u32 {
+        self.h
+    }
+    fn iter_rows(&self, start_row: u32) -> impl Iterator<Item = &[I32]> {
+        let w = self.w as usize;
+        self.px
+            .chunks_exact(w.max(1))
+            .take(if w == 0 { 0 } else { self.h as usize })
+            .skip(start_row as usize)
+    }
+}
+struct UserViewMut<'a> {
+    w: u32,
+    h: u32,
+    px: &'a mut [I32],
+}
+unsafe impl<'a> ImageView for UserViewMut<'a> {
+    type Pixel = I32;
+    fn width(&self) -> u32 {
+        self.w
+    }
+    fn height(&self) -> u32 {
+        self.h
+    }
+    fn iter_rows(&self, start_row: u32) -> impl Iterator<Item = &[I32]> {
+        let w = self.w as usize;
+        self.px
+            .chunks_exact(w.max(1))
+            .take(if w == 0 { 0 } else { self.h as usize })
+            .skip(start_row as usize)
+    }
+}
+unsafe impl<'a> ImageViewMut for UserViewMut<'a> {
+    fn iter_rows_mut(&mut self, start_row: u32) -> impl Iterator<Item = &mut [I32]> {
+        let w = self.w as usize;
+        let h = self.h as usize;
+        self.px
+            .chunks_exact_mut(w.max(1))
+            .take(if w == 0 { 0 } else { h })
+            .skip(start_row as usize)
+    }
+}
+
+fn pixels_of(bytes: &[u8]) -> &[I32] {
+    let (_, mid, _) = unsafe { bytes.align_to::<I32>() };
+    mid
+}
+fn pixels_of_mut(bytes: &mut [u8]) -> &mut [I32] {
+    let (_, mid, _) = unsafe { bytes.align_to_mut::<I32>() };
+    mid
+}
 
 fn fixed(tier: Tier) -> Vec<Vec<u8>> {
     let max = if tier == Tier::Thorough { 20 } else { 8 };
@@ -359,7 +424,7 @@ fn check_parent_after(parent: &Buf, pw: u32, ph: u32, g: &Geo, r: &Req, touched:
 
 /// geometry of the view of size (w,h) for a kind: (pw, ph, ox, oy)
 fn placement(mutable: bool, kind: u8, w: u32, h: u32) -> (u32, u32, u32, u32) {
-    let cropped = if mutable { kind >= 1 } else { kind >= 2 };
+    let cropped = if mutable { kind == 1 || kind == 2 } else { (2..=5).contains(&kind) };
     let nested = if mutable { kind == 2 } else { kind == 4 };
     if nested {
         (w + 4, h + 4, 2, 2)
@@ -370,15 +435,21 @@ fn placement(mutable: bool, kind: u8, w: u32, h: u32) -> (u32, u32, u32, u32) {
     }
 }
 
-const SHARED_NAMES: [&str; 6] = [
+const SHARED_NAMES: [&str; 7] = [
     "TypedImage",
     "TypedImageRef",
     "TypedCroppedImage<&TypedImageRef>",
     "TypedCroppedImage<TypedImage>",
     "nested TypedCroppedImage",
     "TypedCroppedImageMut (shared interface)",
+    "user-defined ImageView (default split implementations)",
 ];
-const MUT_NAMES: [&str; 3] = ["TypedImage", "TypedCroppedImageMut<&mut TypedImage>", "nested TypedCroppedImageMut"];
+const MUT_NAMES: [&str; 4] = [
+    "TypedImage",
+    "TypedCroppedImageMut<&mut TypedImage>",
+    "nested TypedCroppedImageMut",
+    "user-defined ImageViewMut (default split implementations)",
+];
 
 fn with_shared_view(kind: u8, w: u32, h: u32, f: &mut dyn FnMut(&dyn SharedRunner, &Geo) -> Result<(), String>) -> Result<(), String> {
     let (pw, ph, ox, oy) = placement(false, kind, w, h);
@@ -410,9 +481,13 @@ fn with_shared_view(kind: u8, w: u32, h: u32, f: &mut dyn FnMut(&dyn SharedRunne
             let v = TypedCroppedImage::new(c1, 1, 1, w, h).map_err(|x| format!("{:?}", x))?;
             f(&Holder(&v), &g)
         }
-        _ => {
+        5 => {
             let p = TypedImage::<I32>::from_buffer(pw, ph, parent.bytes_mut()).map_err(|x| format!("{:?}", x))?;
             let v = TypedCroppedImageMut::new(p, ox, oy, w, h).map_err(|x| format!("{:?}", x))?;
+            f(&Holder(&v), &g)
+        }
+        _ => {
+            let v = UserView { w: pw, h: ph, px: pixels_of(parent.bytes()) };
             f(&Holder(&v), &g)
         }
     }
@@ -445,10 +520,14 @@ fn run_mut_case(kind: u8, w: u32, h: u32, r: &Req, second: Option<bool>, count: 
                 let mut v = TypedCroppedImageMut::from_ref(&mut p, ox, oy, w, h).map_err(|x| format!("{:?}", x))?;
                 mut_level(&mut v, &g, r, second, count)?
             }
-            _ => {
+            2 => {
                 let mut p = TypedImage::<I32>::from_buffer(pw, ph, parent.bytes_mut()).map_err(|x| format!("{:?}", x))?;
                 let c1 = TypedCroppedImageMut::from_ref(&mut p, 1, 1, w + 2, h + 2).map_err(|x| format!("{:?}", x))?;
                 let mut v = TypedCroppedImageMut::new(c1, 1, 1, w, h).map_err(|x| format!("{:?}", x))?;
+                mut_level(&mut v, &g, r, second, count)?
+            }
+            _ => {
+                let mut v = UserViewMut { w: pw, h: ph, px: pixels_of_mut(parent.bytes_mut()) };
                 mut_level(&mut v, &g, r, second, count)?
             }
         }
@@ -488,7 +567,7 @@ fn literal(mutable: bool, kind: u8, w: u32, h: u32, r: &Req, second: u8) -> Vec<
 }
 
 fn enumerate(mutable: bool, kind: u8, w: u32, h: u32) -> Outcome {
-    let name = if mutable { MUT_NAMES[kind as usize % 3] } else { SHARED_NAMES[kind as usize % 6] };
+    let name = if mutable { MUT_NAMES[kind as usize % 4] } else { SHARED_NAMES[kind as usize % 7] };
     let mut o = Outcome::new(format!(
         "all (axis, start, size, parts) on a {}x{} {} view{}",
         w,
@@ -565,7 +644,7 @@ fn enumerate(mutable: bool, kind: u8, w: u32, h: u32) -> Outcome {
 }
 
 fn single(mutable: bool, kind: u8, w: u32, h: u32, r: Req, second: u8, depth: u32) -> Outcome {
-    let name = if mutable { MUT_NAMES[kind as usize % 3] } else { SHARED_NAMES[kind as usize % 6] };
+    let name = if mutable { MUT_NAMES[kind as usize % 4] } else { SHARED_NAMES[kind as usize % 7] };
     let mut o = Outcome::new(format!(
         "{} on a {}x{} {} view{}",
         r.desc(),
